@@ -242,6 +242,16 @@ def run(ctx):
         tbl = tables_for(ids, choice, rot)
         if k % 7 == 6 and ids:
             tbl[str(ctx.rng.choice(ids))] = ctx.rng.choice(["raiseOther", "retOther"])
+        if not typed and k % 6 == 3:
+            # siblings whose data compare EQUAL (the same string, equal-but-distinct objects) under distinct explicit ids: a
+            # rejected node must be taken out by identity, not by `==`
+            cnt2 = itertools.count(1)
+
+            def eq(sp):
+                return [({"a": ctx.rng.choice([0, 0, 18, 19]), "did": 4000 + next(cnt2)}, eq(kids)) for lab, kids in sp]
+
+            spec = eq(spec)
+            out.dist["eq_sibling_tree"] += 1
         paths = [()] + list(gen.all_paths(spec))
         path = paths[0] if k % 2 else ctx.rng.choice(paths)
         one_case(ctx, out, spec, typed, path, tbl, rot)
